@@ -264,6 +264,12 @@ m("c20-botconn-reader-reuses-buffer", "C20", "bot/client.go",
 m("c20-channel-close-drops-buffered", "C20", "net/queue/queue.go",
   "func (c ChannelQueue[T]) Close() {\n\tclose(c)", "func (c ChannelQueue[T]) Close() {\n\tselect {\n\tcase <-c:\n\tdefault:\n\t}\n\tclose(c)")
 
+m("c20-typecache-keyed-by-name", "C20", "nbt/typeinfo.go",
+  "\tif ti, ok := fieldCache.Load(t); ok {\n\t\treturn ti.(structFields)\n\t}\n\ttInfo := typeFields(t)\n\tti, _ := fieldCache.LoadOrStore(t, tInfo)",
+  "\tif ti, ok := fieldCache.Load(t.String()); ok {\n\t\treturn ti.(structFields)\n\t}\n\ttInfo := typeFields(t)\n\tti, _ := fieldCache.LoadOrStore(t.String(), tInfo)")
+m("c20-typecache-store-after-yield", "C20", "nbt/typeinfo.go",
+  "\tti, _ := fieldCache.LoadOrStore(t, tInfo)\n\treturn ti.(structFields)", "\tfieldCache.Store(t, tInfo)\n\tti, _ := fieldCache.Load(t)\n\treturn ti.(structFields)")
+
 
 def sh(cmd, cwd=None, timeout=3600, env=ENV):
     p = subprocess.run(cmd, shell=True, cwd=cwd, env=env, stdout=subprocess.PIPE, stderr=subprocess.STDOUT, text=True, timeout=timeout)
